@@ -90,7 +90,7 @@ def check_case(case):
 
 OPS = ['delete', 'duplicate', 'swap', 'move', 'truncate', 'retag', 'orphan-trailer', 'dup-trailer', 'bad-count', 'empty-segment',
        'blank-segment', 'sep-only-segment', 'no-elements', 'extra-elements', 'extra-components', 'long-segment', 'second-isa',
-       'unknown-gs08', 'bad-isa12', 'leading-blank', 'trailing-seps', 'bad-bht02', 'bad-hl', 'lowercase-id', 'isa-15-elements', 'delete-header', 'garble-element', 'garble-element', 'bad-lx', 'empty-first-component', 'empty-first-component']
+       'unknown-gs08', 'bad-isa12', 'leading-blank', 'trailing-seps', 'bad-bht02', 'bad-hl', 'lowercase-id', 'isa-15-elements', 'delete-header', 'garble-element', 'garble-element', 'bad-lx', 'empty-first-component', 'empty-first-component', 'trailer-before-header', 'append-orphan-envelope']
 
 
 def mutate(text, ch, nops):
@@ -203,6 +203,22 @@ def mutate(text, ch, nops):
                 comps[0] = ''
                 p[q] = sub.join(comps)
                 segs[j] = ele.join(p)
+        elif op == 'trailer-before-header':
+            # a trailer moved in front of the header it closes (GE before its GS, SE before its ST, IEA before ... )
+            pairs = {'GS': 'GE', 'ST': 'SE'}
+            k = [j for j, sg in enumerate(segs) if sg.split(ele)[0] in pairs and j > 0]
+            if k:
+                j = k[ch.integer(0, len(k) - 1)]
+                tr = pairs[segs[j].split(ele)[0]]
+                later = [q for q in range(j + 1, len(segs)) if segs[q].split(ele)[0] == tr]
+                if later:
+                    t_ = segs.pop(later[0])
+                    segs.insert(j, t_)
+        elif op == 'append-orphan-envelope':
+            tail = ch.choice([['GS%sHC%sA%sB%s20040101%s1230%s9%sX%s004010X098A1', 'IEA%s1%s000000001'],
+                              ['ST%s837%s0009', 'IEA%s1%s000000001'], ['GS%sHC%sA%sB%s20040101%s1230%s9%sX%s004010X098A1', 'ST%s837%s0009', 'IEA%s0%s000000009'],
+                              ['GE%s1%s1', 'GS%sHC%sA%sB%s20040101%s1230%s9%sX%s004010X098A1', 'IEA%s1%s000000001']])
+            segs += [x.replace('%s', ele) for x in tail]
         elif op == 'bad-lx':
             k = [j for j, s in enumerate(segs) if s.startswith('LX')]
             if k:
